@@ -156,4 +156,26 @@ theorem writeAll_readBack (a b : Registry) (h : sameText a b) (rs : List (Record
     simp only [List.map_cons, writeAll, write_readBack a b h x.1 x.2 ho hl hd,
       ih (fun y hy => hall y (by simp [hy]))]
 
+/-! ### a pipeline that reads and writes in turn -/
+
+/-- `WriteSeq` for every record, each under the registry of ITS moment: in a pipeline that scans a
+record, writes it, scans the next …, the process-global registry grows between two writes -/
+def writeEach : List (Registry × Record) → Out Bytes
+  | [] => .ok []
+  | (g, r) :: xs => do
+    let a ← write g r
+    let b ← writeEach xs
+    pure (a ++ b)
+
+/-- as long as every registry of the pipeline writes the same text as `reg` (it is `reg` plus names
+learned since), the stream is the one written under `reg` alone -/
+theorem writeEach_same (reg : Registry) (xs : List (Registry × Record)) (h : ∀ x ∈ xs, sameText reg x.1) :
+    writeEach xs = writeAll reg (xs.map (·.2)) := by
+  induction xs with
+  | nil => rfl
+  | cons x xs ih =>
+    obtain ⟨g, r⟩ := x
+    simp only [writeEach, List.map_cons, writeAll, write_same reg g (h (g, r) (by simp)) r,
+      ih (fun y hy => h y (by simp [hy]))]
+
 end Gts.GenBank
